@@ -94,7 +94,12 @@ fn leaf_data(n: usize, i: usize, trailing_empty: usize, holes: u64) -> Vec<u8> {
     if i >= n - trailing_empty || (i < 64 && holes >> i & 1 == 1) {
         Vec::new()
     } else {
-        format!("leaf-{n}-{i}").into_bytes()
+        // every third leaf is exactly as long as a hash (leaf / inner-node domain separation)
+        let mut v = format!("leaf-{n}-{i}").into_bytes();
+        if (n + i) % 3 == 0 {
+            v.resize(32, b'.');
+        }
+        v
     }
 }
 
@@ -178,6 +183,23 @@ fn claims_for(leaves: &[Vec<u8>], rt: &RefTree, i: usize, reduced: bool) -> Vec<
             }
         }
     }
+    // an inner node of the tree passed off as a leaf: node at height k on the path, position
+    // i >> k, with the remaining upper part of the path (and the lower-level variants of it)
+    for k in 1..=path.len() {
+        let node: Vec<u8> = wincode::serialize(&rt.levels[k][i >> k]).expect("ser");
+        let upper: Vec<Hash> = path[k..].to_vec();
+        out.push(mk("inner-node-as-leaf", &node, i >> k, &root, &upper, false, false));
+        out.push(mk("inner-node-as-leaf", &node, i, &root, &upper, false, false));
+        out.push(mk("inner-node-as-leaf", &node, i >> k, &root, &path, false, false));
+        // the sibling subtree's root likewise
+        let sib: Vec<u8> = wincode::serialize(&path[k - 1]).expect("ser");
+        let mut p = vec![rt.levels[k - 1][i >> (k - 1)].clone()];
+        p.extend_from_slice(&path[k..]);
+        out.push(mk("inner-node-as-leaf", &sib, (i >> (k - 1)) ^ 1, &root, &p, false, false));
+    }
+    // the leaf's own hash passed off as the leaf
+    let own_hash: Vec<u8> = wincode::serialize(&rt.levels[0][i]).expect("ser");
+    out.push(mk("inner-node-as-leaf", &own_hash, i, &root, &path, false, false));
     // proof length
     for l in 0..path.len() {
         let p: Vec<Hash> = path[..l].to_vec();
